@@ -5,6 +5,6 @@ Require ExtrOcamlBasic.
 From GS Require Import HttpCfg HttpServer HttpDrain.
 Extraction Language OCaml.
 Extraction "m_http.ml"
-  route_equal go_config_equal config_equiv paths_nodup config_eqb new_config_ok
+  route_equal go_config_equal config_equiv paths_nodup config_eqb new_config_ok new_config
   http_accept http_depth validated_now stop_locked_now predicts_crash fsm_code
-  drain_check.
+  drain_check sres_allowed.
